@@ -248,6 +248,13 @@ pub(crate) fn c_drop_buffer<const N: usize>() {
 
 // ----- make_contiguous and views (C01 C07 C20) ---------------------------------------------
 
+/// does `p` address one of the OCCUPIED slots of the buffer? (C04: nothing may be read from / handed out of any other slot)
+fn in_window<const N: usize>(b: &CircularBuffer<N, Tok>, p: *const Tok) -> bool {
+    let mut i = 0; let mut found = false;
+    while i < b.size && i < N { if core::ptr::eq(b.items[phys(b.start, i, N)].as_ptr(), p) { found = true; } i += 1; }
+    found
+}
+
 fn slot_ptr<const N: usize>(b: &CircularBuffer<N, Tok>, i: usize) -> *const Tok {
     b.items[phys(b.start, i, N)].as_ptr()
 }
@@ -280,7 +287,8 @@ pub(crate) fn c_get<const N: usize>() {
     let old = ids_of(&b);
     let i = nd::any_usize();
     // get / nth_front
-    match b.get(i) { Some(t) => check!(i < old.len && t.id == old.a[i] && (t as *const Tok) == slot_ptr(&b, i), "[C07] get(i): wrong element or address"),
+    match b.get(i) { Some(t) => { check!(in_window(&b, t as *const Tok), "[C04] get(i) handed out a reference to a slot that holds no live element");
+                                  check!(i < old.len && t.id == old.a[i % CAP] && (t as *const Tok) == slot_ptr(&b, i % (N + 1)), "[C07] get(i): wrong element or address") }
                      None => check!(i >= old.len, "[C07,C11] get(i) returned None for a position inside the contents") }
     match b.nth_front(i) { Some(t) => check!(i < old.len && (t as *const Tok) == slot_ptr(&b, i), "[C07] nth_front(i): wrong element or address"),
                            None => check!(i >= old.len, "[C07] nth_front(i) returned None for a position inside the contents") }
@@ -706,11 +714,13 @@ pub(crate) fn c_iter_script<const N: usize>() {
         }
         if nd::any_bool() {
             let r = it.next(); let mr = m.pop_front();
-            match r { Some(t) => { check!(mr == Some(t.id) && (t as *const Tok) == slot_ptr(&b, pos_front), "[C07,C08] iter/range: next() is not the front-most selected element not yet produced"); pos_front += 1; }
+            match r { Some(t) => { check!(in_window(&b, t as *const Tok), "[C04] iter/range: next() handed out a reference to a slot that holds no live element");
+                                   check!(mr == Some(t.id) && (t as *const Tok) == slot_ptr(&b, pos_front), "[C07,C08] iter/range: next() is not the front-most selected element not yet produced"); pos_front += 1; }
                       None => check!(mr.is_none(), "[C08] iter/range: next() returned None before every selected element was produced") }
         } else {
             let r = it.next_back(); let mr = m.pop_back();
-            match r { Some(t) => { pos_back -= 1; check!(mr == Some(t.id) && (t as *const Tok) == slot_ptr(&b, pos_back), "[C07,C08] iter/range: next_back() is not the back-most selected element not yet produced"); }
+            match r { Some(t) => { check!(in_window(&b, t as *const Tok), "[C04] iter/range: next_back() handed out a reference to a slot that holds no live element");
+                                   pos_back = pos_back.wrapping_sub(1); check!(mr == Some(t.id) && (t as *const Tok) == slot_ptr(&b, pos_back % (N + 1)), "[C07,C08] iter/range: next_back() is not the back-most selected element not yet produced"); }
                       None => check!(mr.is_none(), "[C08] iter/range: next_back() returned None before every selected element was produced") }
         }
         k += 1;
